@@ -723,6 +723,9 @@ def build_sprout(s: dict):
         if f["k"] == "userpure":
             dfs.append(userdefs.PureCopyFilter())
             continue
+        if f["k"] == "userreorder":
+            dfs.append(userdefs.BestParentsFirstFilter())
+            continue
         if f["k"] == "far":
             dfs.append(_sf.FarEnough(f["d"], _ord(f["ord"])))
         elif f["k"] == "nbcfar":
